@@ -142,6 +142,12 @@ func (p *parser) consumeEmitLine(nextState parseStateFn) parseStateFn {
 	// consume current character
 	nextToken := p.next()
 
+	if p.nextToken.typ == tokEOF {
+		// the last line of the input is not terminated by a newline
+		p.lines = append(p.lines, p.currentLine)
+		return nil
+	}
+
 	if p.nextToken.typ != tokNewline {
 		p.err = fmt.Errorf("expected newline, got: '%s'", p.nextToken)
 		return nil
